@@ -429,6 +429,75 @@ def build_cmds(lp, h="h0", how="load"):
     return lines
 
 
+def wide_pricing(r):
+    """many attractive columns at the slack basis (more than any fixed candidate bucket of a partial pricing scheme): max c.x,
+    A x <= b with non-negative coefficients, 0 <= x <= u; 120-320 columns, 8-20 rows, about 80% of the costs positive"""
+    m, n = r.randint(8, 20), r.choice([120, 140, 175, 210, 260, 320])
+    lp = _mk(m, n, True)
+    for j in range(n):
+        lp["obj"][j] = F(r.randint(1, 9)) if r.random() < .8 else F(-r.randint(0, 4))
+        lp["lo"][j], lp["up"][j] = F(0), F(r.randint(1, 5))
+        for i in r.sample(range(m), 3):
+            lp["A"][i].append((j, F(r.randint(1, 6))))
+    for i in range(m):
+        lp["A"][i].sort()
+        lp["sense"][i] = "L"
+        lp["rhs"][i] = F(r.randint(20, 90))
+    return lp
+
+
+def tall_pricing(r):
+    """many primal infeasible rows at the (dual feasible) slack basis: min c.x with c > 0, a_i x >= b_i > 0; 120-300 rows, 8-20 columns"""
+    m, n = r.choice([120, 140, 175, 210, 260, 300]), r.randint(8, 20)
+    lp = _mk(m, n, False)
+    for j in range(n):
+        lp["obj"][j] = F(r.randint(1, 9))
+        lp["lo"][j], lp["up"][j] = F(0), INF
+    for i in range(m):
+        for j in sorted(r.sample(range(n), 3)):
+            lp["A"][i].append((j, F(r.randint(1, 6))))
+        lp["sense"][i] = "G" if r.random() < .8 else "L"
+        lp["rhs"][i] = F(r.randint(1, 30)) if lp["sense"][i] == "G" else F(r.randint(200, 400))
+    return lp
+
+
+def sparse_cover(r, m=None, n=None):
+    """sparse covering LP (min c.x, c > 0, A x >= b > 0 with 3 positive entries per row, 0 <= x <= 10): always feasible and bounded,
+    sparse enough for the row-wise pricing paths of the simplex"""
+    m = m or r.randint(8, 14)
+    n = n or r.randint(12, 20)
+    lp = _mk(m, n, False)
+    for j in range(n):
+        lp["obj"][j] = F(r.randint(1, 7))
+        lp["lo"][j], lp["up"][j] = F(0), F(10)
+    for i in range(m):
+        for j in sorted(r.sample(range(n), 3)):
+            lp["A"][i].append((j, F(r.randint(1, 5))))
+        lp["sense"][i] = "G"
+        lp["rhs"][i] = F(r.randint(3, 11))
+    used = {j for row in lp["A"] for j, v in row}
+    for j in range(n):
+        if j not in used:
+            lp["A"][r.randrange(m)].append((j, F(1)))
+    for row in lp["A"]:
+        row.sort()
+    return lp
+
+
+def file_origin_ok(lp):
+    """the problem survives a trip through an MPS file with identical shape (indices, names): no empty row, every column used, ranges >= 0"""
+    used = {j for row in lp["A"] for j, v in row if v != 0} | {j for j in range(lp["n"]) if lp["obj"][j] != 0}
+    return (lp["m"] > 0 and lp["n"] > 0 and len(used) == lp["n"] and all(any(v != 0 for _, v in row) for row in lp["A"])
+            and all(F(v) >= 0 for v in lp["range"]) and len(set(lp["cname"])) == lp["n"] and len(set(lp["rname"])) == lp["m"])
+
+
+def via_file_cmds(tag, h="h0"):
+    """replace the API-built object by the same problem READ FROM A FILE: objects that come from the readers carry state the builders do
+    not create (row-wise copy of the matrix, problem / objective names, raw-data leftovers)"""
+    f = "fo_%s.mps" % tag
+    return ["write_prob %s %s MPS" % (h, f), "free %s" % h, "read_prob %s %s MPS" % (h, f)]
+
+
 BUILD_MODES = ["load", "create", "rowsfirst", "interleave"]
 
 
